@@ -215,7 +215,8 @@ def run_case(case):
         if how == "right":
             r = impl("nearest_right", fog.nearest_right, qk,
                      allowed=(PerfectVisibility, FullDirectionalVisibility))
-            if isinstance(r, Raised) and isinstance(r.exc, FullDirectionalVisibility):
+            # like NodeIterator and the README loop: PerfectVisibility means "walk over"
+            if isinstance(r, Raised) and not isinstance(r.exc, PerfectVisibility):
                 r = impl("nearest_unknown", fog.nearest_unknown, qk, allowed=(PerfectVisibility,))
             info.label("nearest_right-used")
         else:
